@@ -83,8 +83,8 @@ def check(pid, tier, scratch, replay):
     runs.append(dict(cfg='MC_ReadIso.cfg', distinct=m.get('distinct')))
     runs.append(dict(cfg='MC_ReadIso_asfound.cfg', violated=a['violated'], note='live reads (no snapshot): the model itself admits mixed answers'))
     jobs = []
-    for cfg, mod, extra, n in (('Gen_Pay.cfg', 'MC_Pay.tla', {}, 40 if quick else 500), ('Gen_Stake.cfg', 'MC_Stake.tla', props.STAKE_X, 20 if quick else 300),
-                               ('Gen_Imp.cfg', 'MC_Imp.tla', {}, 20 if quick else 300)):
+    for cfg, mod, extra, n in (('Gen_Pay.cfg', 'MC_Pay.tla', {}, 40 if quick else 150), ('Gen_Stake.cfg', 'MC_Stake.tla', props.STAKE_X, 20 if quick else 80),
+                               ('Gen_Imp.cfg', 'MC_Imp.tla', {}, 20 if quick else 80)):
         o = {'GenDepth': '12', 'GenRandom': 'TRUE', 'MaxQ': '4'}
         r = vlib.tlc(cfg, mod, scratch, overrides=o, simulate=dict(num=n * 4, depth=13, seed=vlib.seed() * 11 + len(runs)))
         vlib.require_clean(r, 'generator ' + cfg)
@@ -97,8 +97,8 @@ def check(pid, tier, scratch, replay):
         # an API write overlapping the follower's last block step
         hs1 = [json.loads(x) for x in sorted(set(r['histories']))]
         hs1 = [x for x in hs1 if x[-1]['a'] == 'HandleBlock' and x[-1]['exp'].get('q')]
-        for x in vlib.sample(hs1, 12 if quick else 200, rnd):
-            for k in (rnd.sample(range(2, 40), 3) if quick else range(2, 60, 2)):
+        for x in vlib.sample(hs1, 12 if quick else 60, rnd):
+            for k in (rnd.sample(range(2, 40), 3) if quick else range(2, 60, 4)):
                 jobs.append(dict(u=u, h=x, mode='write-overlap', opt=dict(park=k), src=cfg))
         for h in hs:
             for api in ('balance', 'utxo'):
